@@ -296,8 +296,8 @@ Definition raw_okP fz (fr : frame) hs : Prop :=
 
 Definition frame_ok fz (m : meth) (fr : frame) hs : Prop :=
   match m with
-  | MDtor => is_live hs (f_this fr) = true
-  | MDefCtor => is_deadslot hs (f_this fr) = true
+  | MDtor => is_live hs (f_this fr) = true /\ f_arg fr = ANone
+  | MDefCtor => is_deadslot hs (f_this fr) = true /\ f_arg fr = ANone
   | MCopyCtor | MConvCtor => is_deadslot hs (f_this fr) = true /\ src_okP fr hs
   | MMoveCtor => is_deadslot hs (f_this fr) = true /\ mov_okP fr hs
   | MRawCtor => is_deadslot hs (f_this fr) = true /\ raw_okP fz fr hs
@@ -393,11 +393,11 @@ Proof.
     (destruct p as [v|]; simpl in S; [destruct S as [J|[J|J]]|]); simpl.
     all: fin hs h h fz. }
   destruct m; simpl; intro F.
-  - (* dtor *) pose proof (is_live_lt _ _ F) as Hlt. pose proof (live_not_dead _ _ F) as Hnd.
+  - (* dtor *) destruct F as [F _]. pose proof (is_live_lt _ _ F) as Hlt. pose proof (live_not_dead _ _ F) as Hnd.
     simpl; simpl; unfold holdv; cbn; refold; refold.
     destruct (hget hs h) as [|[u|]] eqn:Eh; [congruence| |]; simpl.
     all: fin hs h h fz.
-  - (* default ctor *) destruct (deadslot_facts _ _ F) as [Hlt Eh]. simpl; simpl; unfold holdv; cbn; refold; refold. fin hs h h fz.
+  - (* default ctor *) destruct F as [F _]. destruct (deadslot_facts _ _ F) as [Hlt Eh]. simpl; simpl; unfold holdv; cbn; refold; refold. fin hs h h fz.
   - now apply CopyCtorCase.
   - (* move ctor *) destruct F as [F S]. destruct (deadslot_facts _ _ F) as [Hlt Eh]. unfold mov_okP in S; simpl in S.
     destruct a as [|g|g|p]; try contradiction.
